@@ -163,10 +163,26 @@ pub fn gen_cases<F: PrimeField>(seed: u64, tier: &str, curve_idx: u64) -> Vec<(S
     use rand_core::SeedableRng;
     let mut rng = ChaChaRng::seed_from_u64(seed ^ (curve_idx << 40) ^ 0x1c1c);
     let n = if tier == "thorough" { 600 } else { 80 };
-    (0..n)
+    let mut out: Vec<(String, Tree<F>)> = (0..n)
         .map(|k| {
             let depth = 1 + (k % 5);
             (format!("lc_{}_{}", curve_idx, k), gen_tree::<F>(&mut rng, depth))
         })
-        .collect()
+        .collect();
+    // long combinations (running sums / differences with repeated variables and repeated constants):
+    // sizes around powers of two and beyond, where size-triggered code paths would sit
+    let sizes: Vec<usize> = if tier == "thorough" { vec![33, 64, 65, 127, 128, 129, 130, 200, 257, 300, 513] } else { vec![64, 129, 140, 260] };
+    for (j, sz) in sizes.iter().enumerate() {
+        let mut t = Tree::Const(edge_scalar(&mut rng));
+        for i in 0..*sz {
+            let term = match i % 3 {
+                0 => Tree::VScale(rand_var(&mut rng), edge_scalar(&mut rng)),
+                1 => Tree::Const(edge_scalar(&mut rng)),
+                _ => Tree::Terms(vec![(rand_var(&mut rng), edge_scalar(&mut rng)), (rand_var(&mut rng), edge_scalar(&mut rng))]),
+            };
+            t = if (i + j) % 4 == 3 { Tree::Sub(Box::new(t), Box::new(term)) } else { Tree::Add(Box::new(t), Box::new(term)) };
+        }
+        out.push((format!("lc_{}_long{}", curve_idx, sz), t));
+    }
+    out
 }
